@@ -27,6 +27,9 @@ func runC17(w *World, r *Report) {
 	// the policy-mode retry state lives in utils.MemoryCache: its freshness and store rules (C12.R1, C12.R2)
 	r.Borrow(w, runC12, map[string]string{"R1": "R2", "R2": "R2"})
 	hrRetryCounterStore(w, r, "R1")
+	hrFlowContextGetterIsPure(w, r, "R1")
+	// in flows mode the retry conditions are the filter of the flow that holds the processor (C03.R1, C03.R4)
+	r.Borrow(w, runC03, map[string]string{"R1": "R1", "R4": "R1"})
 	la := NewLockAn(w)
 	ex := w.Fn(pkgRetry, "retryProcessor.Execute")
 	if ex == nil {
@@ -80,7 +83,8 @@ func runC17(w *World, r *Report) {
 			stored := margs(sets[0])[1]
 			b, isB := peel(stored).(*ssa.BinOp)
 			ok = isB && b.Op == token.ADD && isIntConst(b.Y, 1) && Path(margs(sets[0])[0]) == "param:counterKey" && Path(margs(gets[0])[0]) == "param:counterKey" &&
-				Path(sets[0].Common().Value) == Path(gets[0].Common().Value) && strings.Contains(Path(sets[0].Common().Value), "GetFlowContext(")
+				Path(sets[0].Common().Value) == Path(gets[0].Common().Value) && strings.Contains(Path(sets[0].Common().Value), "GetFlowContext(") &&
+				onEveryPathToReturn(sets[0]) // the new count is stored whatever its value
 			if ok {
 				ph, isPhi := b.X.(*ssa.Phi)
 				ok = isPhi
